@@ -226,7 +226,7 @@ func (h *Harness) final(closed int) {
 			kept++
 		}
 	}
-	if n := h.A.PoolConns(); n != kept {
+	if n := h.A.PoolConns(); n > kept {
 		c.Fail("leak", "connections-left", "flush-all", "%d connections remain in the pool after flush-all; %d streams declined removal", n, kept)
 	}
 	if n := h.A.PagesUsed(); n != 0 {
